@@ -38,6 +38,18 @@ func runC20(w *World, r *Report) {
 			helper = an
 		}
 	}
+	if execOp == nil {
+		// the oracle as a named function: the variadic in-package function the generator's closures call
+		for _, an := range append([]*ssa.Function{gen}, gen.AnonFuncs...) {
+			EachInstr(an, func(in ssa.Instruction) {
+				if c, ok := in.(*ssa.Call); ok {
+					if h := c.Call.StaticCallee(); h != nil && w.funcSet[h] && h.Signature.Variadic() && h.Signature.Results().Len() == 1 {
+						execOp = h
+					}
+				}
+			})
+		}
+	}
 	if execOp == nil || helper == nil {
 		r.Unresolved("R-EXECOP", "execOp / helper closures of GenerateRandomExpr not found")
 		return
